@@ -59,7 +59,7 @@ def functions_assignments(repo: Repo) -> List[Tuple[str, ast.AST, ast.expr]]:
     return out
 
 
-def classify_functions_value(v: ast.expr) -> Tuple[Optional[bool], str]:
+def classify_functions_value(v: ast.expr, fn: Optional[ast.AST] = None) -> Tuple[Optional[bool], str]:
     v = strip_cast(v)
     txt = ast.unparse(v)
     if isinstance(v, ast.Call) and (dotted(v.func) or "").split(".")[-1] == "ChainMap":
@@ -79,6 +79,20 @@ def classify_functions_value(v: ast.expr) -> Tuple[Optional[bool], str]:
                     return False, f"`{txt[:80]}` flattens the lookup chain front to back: later layers (the built-ins) overwrite the supplied functions"
                 if any(".maps" in i and "reversed" in i for i in its):
                     return True, "flattened in reverse layer order (first layer wins)"
+        # ChainMap(<local dict>) filled by a loop over the layers
+        if fn is not None and len(args) == 1 and isinstance(args[0], ast.Name):
+            nm = args[0].id
+            for loop in ast.walk(fn):
+                if isinstance(loop, ast.For) and ".maps" in ast.unparse(loop.iter):
+                    fills = [c for c in ast.walk(loop) if isinstance(c, ast.Call) and isinstance(c.func, ast.Attribute) and dotted(c.func.value) == nm and c.func.attr in ("update", "setdefault", "__setitem__")]
+                    fills += [c for c in ast.walk(loop) if isinstance(c, ast.Subscript) and isinstance(c.ctx, ast.Store) and dotted(c.value) == nm]
+                    if not fills:
+                        continue
+                    rev = "reversed" in ast.unparse(loop.iter) or "[::-1]" in ast.unparse(loop.iter)
+                    first_wins = all(isinstance(c, ast.Call) and c.func.attr == "setdefault" for c in fills)
+                    if rev != first_wins:  # reversed + overwrite, or forward + setdefault: the first layer wins
+                        return True, f"`{nm}` is flattened so that the first layer (the supplied functions) wins"
+                    return False, f"`{nm}` is filled from `{ast.unparse(loop.iter)}` front to back with overwriting updates: later layers (the built-ins) overwrite the supplied functions"
         return None, f"unrecognised construction `{txt[:70]}`"
     if isinstance(v, ast.Call) and isinstance(v.func, ast.Attribute) and v.func.attr in ("copy", "new_child") and ast.unparse(v.func.value).endswith(".functions"):
         return True, f"`{txt}` keeps the layer order"
@@ -153,7 +167,10 @@ def check(repo: Repo, run: Run) -> None:
     n2 = 0
     for q, node, val in functions_assignments(repo):
         n2 += 1
-        verdict, why = classify_functions_value(val)
+        encl = node
+        while encl is not None and not isinstance(encl, ast.FunctionDef):
+            encl = getattr(encl, "_parent", None)
+        verdict, why = classify_functions_value(val, encl)
         if verdict is None:
             run.inconclusive("C14.F2", q, why)
         else:
